@@ -36,6 +36,17 @@ Check C11_padding :
     pad_spec (conv fs) (if negb nonneg then [45] else if f_plus fs then [43] else []) buf.
 Print Assumptions C11_padding.
 
+(* the padding model alone, on a plain i128 with the same flags (this is how core::fmt's pad_integral,
+   which is modelled and not verified, is tied to the implementation: protocol lines fmt.<id>.i) *)
+Theorem C11_int_padding_accepted :
+  forall fill a plus alt zero w c, - 2 ^ 127 < c < 2 ^ 127 ->
+    acc_fmt_int fill a plus alt zero w c (run_fmt_int fill a plus alt zero w c) = true.
+Proof. exact fmt_int_acc. Qed.
+Check C11_int_padding_accepted :
+  forall fill a plus alt zero w c, - 2 ^ 127 < c < 2 ^ 127 ->
+    acc_fmt_int fill a plus alt zero w c (run_fmt_int fill a plus alt zero w c) = true.
+Print Assumptions C11_int_padding_accepted.
+
 (* exactly p digits after the point *)
 Theorem C11_fraction_digit_count :
   forall w v, 0 <= v < 10 ^ w -> 0 < w <= 45 -> Z.of_nat (length (fixed_digits w v)) = w.
